@@ -57,7 +57,8 @@ GROUP_INDEX = {"w1r1-fmmu": 5, "w2r1-mixed": 63, "w0r0": 0, "w0r1-fmmu": 1,
                "w0r2-mixed": 17, "w1r0-direct": 62, "w1r2-mixed": 33,
                "w2r0-mixed": 2, "w2r2-mixed": 40}
 FOREIGN = ["non-ethercat", "no-id-datagram", "index-64", "index-1000",
-           "index-minus1", "short-14", "short-30"]
+           "index-minus1", "index-64k+group", "index-2^31+group",
+           "index-256+group", "short-14", "short-30"]
 PRANDOM = [0, 1, 0xffff, 0x12345678, 0xffffffff, 0x10000]
 
 
@@ -251,6 +252,14 @@ class Model:
             struct.pack_into("<I", f, 18, 1000)
         elif kind == "index-minus1":
             struct.pack_into("<i", f, 18, -1)
+        elif kind == "index-64k+group":
+            # slow-path indices that equal the group's number in their low
+            # 16 / 8 / 31 bits (roundtrip_packet draws from 2000..10^9)
+            struct.pack_into("<I", f, 18, 0x30000 + self.index)
+        elif kind == "index-256+group":
+            struct.pack_into("<I", f, 18, 0x100 + self.index)
+        elif kind == "index-2^31+group":
+            struct.pack_into("<I", f, 18, 0x80000000 + self.index)
         elif kind == "short-14":
             f = f[:14]
         elif kind == "short-30":
@@ -261,7 +270,30 @@ class Model:
 
     # ------------------------------------------------------------ one pass
     def execute(self, c32, won, frame):
-        """run the dispatcher once -> observation dict (VM; kernel compared)"""
+        """run the dispatcher once -> observation dict (VM; kernel compared).
+        The random helper answers with the next value of PRANDOM; the step
+        is repeated with the boundary answers (low 16 bits all zero / all
+        one): at drop rate 0 the outcome must not depend on the helper"""
+        self.nruns += 1
+        main = PRANDOM[self.nruns % len(PRANDOM)]
+        obs = self._execute1(c32, won, frame, main)
+        if obs["trap"] is None:
+            for alt in (0, 0xffff, 0x10000):
+                if alt == main:
+                    continue
+                o2 = self._execute1(c32, won, frame, alt)
+                if any(o2[k] != obs[k] for k in ("ret", "frame", "c",
+                                                  "werr", "runs", "trap")):
+                    obs["random"] = (main, alt, o2["ret"], o2["trap"])
+                    # judge the deviating run: it is the one that shows
+                    # what goes wrong
+                    o2["random"] = obs["random"]
+                    return o2
+        if self.rdisp is not None and obs["trap"] is None:
+            self._kernel_compare(c32, won, frame, obs)
+        return obs
+
+    def _execute1(self, c32, won, frame, prandom):
         d, g = self.disp, self.group
         d.area[:] = bytes(len(d.area))
         d.set_counter(self.index, c32)
@@ -269,19 +301,15 @@ class Model:
         g.set_wkc_errors(1 if won else 0)
         g.set_var(g.dev, "marker", "H", MARK)
         f = bytearray(frame)
-        self.nruns += 1
         obs = dict(trap=None)
         try:
-            ret, vm = fastsim.run_vm(
-                self.K, d.insns, f, PRANDOM[self.nruns % len(PRANDOM)])
+            ret, vm = fastsim.run_vm(self.K, d.insns, f, prandom)
             obs.update(ret=ret, tail=vm.tail_calls, steps=vm.steps)
         except bpfvm.Trap as t:
             obs.update(ret=None, tail=0, trap=str(t), steps=0)
         obs.update(frame=bytes(f), c=d.get_counter(self.index),
                    werr=g.get_wkc_errors(), runs=g.get_var(g.dev, "runs", "I"),
                    other=self._other_map_bytes(d))
-        if self.rdisp is not None and obs["trap"] is None:
-            self._kernel_compare(c32, won, frame, obs)
         return obs
 
     def _other_map_bytes(self, d):
@@ -318,6 +346,11 @@ class Model:
                       "trap: " + obs["trap"]))
             return v
         ret, post, tail = obs["ret"], obs["frame"], obs["tail"]
+        if obs.get("random"):
+            main, alt, r2, _ = obs["random"]
+            v.append(("C22", "outcome depends on the random helper at drop "
+                      "rate 0", f"the same outcome for answers {main:#x} and "
+                      f"{alt:#x}", f"action {r2} with {alt:#x}"))
         if ret not in (TX, PASS):
             v.append(("C22", "frame dropped", "XDP action TX(3) or PASS(2)",
                       f"action {ret}"))
@@ -426,7 +459,10 @@ class Model:
         obs = self.execute(c, won, frame)
         viol = self.judge_group_step(c, won, frame, obs)
         # the counter abstraction: only the low byte is read
-        if obs["trap"] is None and (self.nruns % 8 == 0 or c in (0, 255)):
+        # (checked on steps that were judged correct; a step with a
+        # violation is reported as such)
+        if obs["trap"] is None and not viol and \
+                (self.nruns % 8 == 0 or c in (0, 255)):
             hi = 0xfedcba00
             obs2 = self.execute(hi | c, won, frame)
             if (obs2["ret"], obs2["frame"], obs2["c"] & 0xff, obs2["werr"]) \
